@@ -14,7 +14,7 @@ from . import util
 
 _RE_STATES = re.compile(r"(\d+) states generated, (\d+) distinct states found, (\d+) states left on queue")
 _RE_DEPTH = re.compile(r"The depth of the complete state graph search is (\d+)")
-_RE_VERDICT = re.compile(r'^<<"VERDICT", (\d+), "([^"]*)"(?:, (.*))?>>$')
+_RE_VERDICT = re.compile(r'<<\s*"VERDICT",\s*(\d+),\s*"([^"]*)"\s*>>', re.S)
 _RE_REJECTED = re.compile(r'"REJECTED",\s*\{([^}]*)\}', re.S)
 
 
@@ -129,13 +129,10 @@ def validate(ctx, module, traces, cfg=None, cfg_text=None, timeout=1800, mode="m
         if mode == "monitor":
             if not stats["ok"]:
                 _fail(module, out, "trace validation run failed")
-            for line in out.splitlines():
-                m = _RE_VERDICT.match(line)
-                if m:
-                    i = int(m.group(1)) - 1
-                    if verdicts[base + i] is None or (verdicts[base + i] == "" and m.group(2)):
-                        verdicts[base + i] = m.group(2)
-                        infos[base + i] = m.group(3)
+            for m in _RE_VERDICT.finditer(out):
+                i = int(m.group(1)) - 1
+                if verdicts[base + i] is None or (verdicts[base + i] == "" and m.group(2)):
+                    verdicts[base + i] = m.group(2)
             for i in range(len(part)):
                 if verdicts[base + i] is None:
                     _fail(module, out, "no verdict for trace %d (monitor not total?)" % (base + i))
